@@ -156,9 +156,22 @@ def rule_translation(ctx):
     ok = rN[2][0] == r0 and len(inter) == 1 and set(inter[0][2]) == {sp, pp} and sp is not None and pp is not None
     ctx.add("FLOW-PIPE", "rename:program-side", ok, site, "rename_predicates is applied to the translated program with the intersection of both private predicate sets")
     ctx.add("FLOW-PIPE", "rename:not-specification", "rename_predicates" not in repr(left), site, "the specification side is never renamed")
-    priv_ok = sp is not None and pp is not None and "Program::predicates" in repr(pp) and "self.program" in repr(pp) and "public_predicates" in repr(pp) \
-        and "('op', 'Not'" in repr(pp) and "public_predicates" in repr(sp) and "self.specification" in repr(sp)
-    ctx.add("FLOW-PIPE", "private-sets", priv_ok, site, "private predicates = predicates of the side that are not public (input or output)")
+    # private predicates of a side = ALL its predicates (heads and bodies) that are not public
+    PUBLIC = ("call", "UserGuide::public_predicates", (("place", "self.user_guide"),))
+    NOTPUB = ("closure", ("p",), ("op", "Not", ("call", "IndexSet::contains", (PUBLIC, ("param", "p")))))
+
+    def private_of(src):
+        return {("call", "Iterator::filter", (src, NOTPUB)), ("call", "Iterator::filter", (("call", "Iterator::map", (src, ("fn", "from"))), NOTPUB))}
+    pp_ok = pp in private_of(("call", "Program::predicates", (("place", "self.program"),)))
+    sp_ok = False
+    if sp is not None and sp[0] == "match" and sp[1] == ("place", "self.specification"):
+        arms = {a[0]: a[-1] for a in sp[2]}
+        L = ("proj", ("place", "self.specification"), (("Either::Left", "0"),))
+        R_ = ("proj", ("place", "self.specification"), (("Either::Right", "0"),))
+        sp_ok = len(arms) == 2 and arms.get("Either::Left(_)") in private_of(("call", "Program::predicates", (L,))) and \
+            arms.get("Either::Right(_)") in private_of(("call", "Specification::predicates", (R_,)))
+    ctx.add("FLOW-PIPE", "private-sets", pp_ok and sp_ok, site,
+            "private predicates of a side = all predicates of that side (Program::predicates / Specification::predicates: heads and bodies) that are not public: program %s, specification %s" % (pp_ok, sp_ok))
     tk = ev.last_env.get("taken_predicates", [None])[-1]
     rt = repr(tk)
     ctx.add("FLOW-PIPE", "taken-after-rename", tk is not None and "rename_predicates" in rt and rt.count("Formula::predicates") >= 2 and "input_predicates" in rt, site,
